@@ -750,6 +750,7 @@ struct Tot {
 fn run_scenario(kit: &Kit, sc: &Scenario, work: &str, exe: &Path, gen_path: &str, thorough: bool, seed: u64) -> (Vec<String>, Tot) {
 	let mut out: Vec<String> = vec![];
 	let mut tot = Tot::default();
+	let t_start = std::time::Instant::now();
 	// ---- base state ----
 	let base = format!("{}/{}-base", work, sc.name);
 	let aux = format!("{}/blocks/archive.zip", work);
@@ -1053,8 +1054,9 @@ fn run_scenario(kit: &Kit, sc: &Scenario, work: &str, exe: &Path, gen_path: &str
 		}
 	}
 	out.push(format!(
-		"#STAT scenario={} kind={} steps={} enumerated={} skipped_same_state={} failing={} recovery_classes={} second_crash_points={} second_failing={} second_differs={}",
-		sc.name, sc.kind, labels.len(), tot.points, tot.skipped, tot.failing, tot.second_classes, tot.second_points, tot.second_failing, tot.second_differs
+		"#STAT scenario={} kind={} steps={} enumerated={} skipped_same_state={} failing={} recovery_classes={} second_crash_points={} second_failing={} second_differs={} seconds={}",
+		sc.name, sc.kind, labels.len(), tot.points, tot.skipped, tot.failing, tot.second_classes, tot.second_points, tot.second_failing, tot.second_differs,
+		t_start.elapsed().as_secs()
 	));
 	(out, tot)
 }
@@ -1071,10 +1073,21 @@ fn startup_mode(out: &mut Out, work: &str, exe: &Path) {
 	let mut kit = Kit::new(&format!("{}/builder", work));
 	let mut tip = 0usize;
 	let mut trunk = vec![0usize];
-	for _ in 0..9 {
-		if let Ok(id) = kit.new_block(tip, 2, &[]) {
-			tip = id;
-			trunk.push(id);
+	// VERIF_STARTUP_SPEND_GENESIS=1 (probe, not a registered run): block 5 spends the genesis coinbase
+	let spend_genesis = std::env::var("VERIF_STARTUP_SPEND_GENESIS").is_ok();
+	for h in 1..=9 {
+		let specs = if spend_genesis && h == 5 {
+			let v = kit.outs[0].value;
+			vec![TxSpec { inputs: vec![0], outputs: vec![(v - 1, None)], kernel: KSpec::Plain(1) }]
+		} else {
+			vec![]
+		};
+		match kit.new_block(tip, 2, &specs) {
+			Ok(id) => {
+				tip = id;
+				trunk.push(id);
+			}
+			Err(e) => out.raw(&format!("#STAT startup generator-error h={} {}", h, e)),
 		}
 	}
 	std::fs::create_dir_all(format!("{}/blocks", work)).unwrap();
@@ -1595,17 +1608,23 @@ fn main() {
 	let mut running: Vec<(usize, libc::pid_t)> = vec![];
 	let mut next = 0usize;
 	let mut failed_children = vec![];
+	// launch order: the scenarios that take longest first (measured: state sync install, the scenarios
+	// with second deaths, the one-call orphan chain), so that they do not start when the others are
+	// done; the OUTPUT stays in scenario order
+	let slow = ["state-sync-install", "compaction-again", "plain-extension", "reorg-with-spends", "orphan-chain", "block-reorg-equal-height", "compaction", "reset-head"];
+	let mut order: Vec<usize> = (0..scenarios.len()).collect();
+	order.sort_by_key(|i| slow.iter().position(|n| *n == scenarios[*i].name).unwrap_or(slow.len()));
 	while next < scenarios.len() || !running.is_empty() {
 		while next < scenarios.len() && running.len() < jobs {
 			let pid = unsafe { libc::fork() };
 			if pid == 0 {
-				let s = &scenarios[next];
+				let s = &scenarios[order[next]];
 				let (lines, _) = run_scenario(&kit, s, &work, &exe, &gen_path, thorough, seed);
 				let p = format!("{}/out-{}.txt", work, s.name);
 				let ok = std::fs::write(&p, lines.join("\n") + "\n").is_ok();
 				unsafe { libc::_exit(if ok { 0 } else { 1 }) };
 			}
-			running.push((next, pid));
+			running.push((order[next], pid));
 			next += 1;
 		}
 		let mut status: libc::c_int = 0;
